@@ -326,7 +326,9 @@ def run(ctx):
     ctx.attempt(_shared_container_rule, ctx, "R12.8", scope=lambda f, _s=("EasyFEA.FEM._linalg", "EasyFEA.FEM._field"): f.module.name.startswith(_s), min_instances=30)
     ctx.level = "other"
     ctx.explanation = (
-        "The protocol dispatch of FeArray depends on run-time shapes and is NOT decided. Decided: the closed-form Det/Inv/Trace/Transpose/TensorProd are the tensor operation "
+        "The protocol overrides of FeArray are interpreted under a stated model of numpy's subclass protocols (sa/femodel.py) on symbolic arrays with Ne == nPg == dim collisions and compared, value and "
+        "type, with the plain numpy operation at each (e, p) (R12.7, ~1000 obligations: operators for all rank pairs and leading shapes, array / list constants, contractions, reductions, "
+        "constructors and the coefficient table). NOT decided: numpy functions outside the model's table (known finding F40). Also decided: the closed-form Det/Inv/Trace/Transpose/TensorProd are the tensor operation "
         "for symbolic entries (polynomial / rational identities); the generated and literal einsum subscripts are folded over their finite rank domain and compared with the "
         "contraction they are for; the reducer tables agree; matrix coefficients are broadcast with tensor_ndim=2 everywhere; a FeArray subscripted by two scalar leading indices "
         "is not used in arithmetic without np.asarray."
